@@ -177,6 +177,9 @@ func variants(cfg shaderCfg) []variant {
 			vs = append(vs, variant{fmt.Sprintf("v%d.%d/debug=%v", ver.Major, ver.Minor, dbg), o})
 		}
 	}
+	if os.Getenv("SPVVAL_CORPUS_FULL") == "" {
+		return vs
+	}
 	for _, ver := range []spirv.Version{{Major: 1, Minor: 1}, {Major: 1, Minor: 4}} {
 		mk := func(label string, f func(o *spirv.Options)) {
 			o := cfg.opts
@@ -200,10 +203,33 @@ func variants(cfg shaderCfg) []variant {
 // knownFindings lists the corpus findings that were triaged as genuine specification violations
 // of the compiler under test (rule -> shader set). Anything else fails the test.
 // Key: rule + " " + shader; value: variants ("*" = any).
-var knownFindings = map[string]string{}
+var knownFindings = func() map[string]string {
+	k := map[string]string{}
+	add := func(rule, why string, shaders ...string) {
+		for _, s := range shaders {
+			k[rule+" "+s] = why
+		}
+	}
+	// Vulkan requires extended (std140) alignment in Uniform blocks unless uniformBufferStandardLayout is
+	// enabled: matCx2<f32> / f16 matrices get MatrixStride 8 or 4 (upstream validates with
+	// --uniform-buffer-standard-layout).
+	add(RLayoutAlign140, "matrix stride < 16 in a Uniform block", "access", "f16", "globals", "hlsl_mat_cx2", "ptr-deref-test")
+	// binding_array<T> without a size becomes a variable of OpTypeRuntimeArray type, which needs the
+	// RuntimeDescriptorArray capability (SPV_EXT_descriptor_indexing); only ShaderNonUniform is declared.
+	add(RCapability, "RuntimeDescriptorArray not declared", "binding-arrays")
+	// ImageLoad = Restrict: the clamp constant vec<u32> is built from i32 OpConstants.
+	add(RConstant, "u32 vector constant with i32 constituents (ImageLoad=Restrict)", "image", "storage-textures", "texture-external")
+	// ImageLoad = ReadZeroSkipWrite on images without mip levels: conditional branch without OpSelectionMerge.
+	add(RSelStructured, "bounds-check branch without OpSelectionMerge (ImageLoad=ReadZeroSkipWrite)",
+		"bounds-check-image-restrict", "bounds-check-image-restrict-depth", "bounds-check-image-rzsw", "bounds-check-image-rzsw-depth",
+		"image", "storage-textures", "texture-external")
+	return k
+}()
 
 // TestCorpusCalibration runs the validator over the SPIR-V produced for every corpus shader at
-// several versions / debug settings. Set SPVVAL_CORPUS_DUMP=1 to print every finding.
+// several versions / debug settings (12 option sets per shader; SPVVAL_CORPUS_FULL=1 adds 10 more:
+// loop bounding off, ForcePointSize+AdjustCoordinateSpace, image/index bounds policies, ...).
+// Set SPVVAL_CORPUS_DUMP=1 to print every finding.
 func TestCorpusCalibration(t *testing.T) {
 	files, _ := filepath.Glob(filepath.Join(corpusDir, "*.wgsl"))
 	if len(files) == 0 {
